@@ -191,6 +191,10 @@ impl Client {
                     if let Some(search) = current_search.take() {
                         search.wait_cancel();
                     }
+
+                    // A new game must not see the tables and position history of the last one,
+                    // also when that search had already been collected by `stop` or `position`
+                    previous_artifact = None;
                 }
                 Some((&"quit", _)) => break,
                 Some((&".state", _)) => {
